@@ -1,12 +1,244 @@
-//! stub: property C03 has no correspondence harness yet
+//! C03 — HTTP/1 reuse discipline: close means close; unread request bodies are never reparsed.
+//! Shares the case grammar, the scripted socket/service and the runner with C02
+//! (`props/c02.rs`, `c02_sock.rs`); generator and oracle are this property's own.
+use super::c02::{self, check_dispatch, gen_cfg, gen_handler, gen_reads, gen_req, gen_writes, run_case, split_responses, Run};
 use super::Prop;
-use crate::common::CaseResult;
+use crate::common::{CaseResult, Ctx, Rng};
+
+const RULE: &str = "cases = one scripted HTTP/1 connection each (same grammar as C02), biased towards requests with \
+bodies (Content-Length / chunked, bytes that look like a smuggled `GET /99` request), handlers that read none / part / all \
+of the body, drop it early or hold it through the response, respond before or after the body arrived, requests and \
+responses asking for `Connection: close`, keep-alive off, half-close on/off, linger on/off, body bytes delivered in any \
+segmentation before/after the response, truncated bodies, malformed heads at any pipeline position; exhaustive family: \
+(body framing x payload action x handler delay x arrival schedule x close flags) for a request followed by a second one; \
+non-trivial = a request with a body or a close announcement was dispatched and answered; distinct = (case, output) hashes";
+
+/// C03's own words on the implementation's wire bytes and call log.
+pub fn oracle_c03(run: &Run) -> Option<(String, String)> {
+    // (b) nothing the client did not send as a request ever reaches the service
+    let ids = match check_dispatch(run) {
+        Ok(v) => v,
+        Err(e) => return Some(e),
+    };
+    let case = &run.case;
+    let methods: Vec<&str> = ids.iter().map(|i| case.reqs[*i].method).collect();
+    let sp = split_responses(&run.sim.wire, &methods);
+    // (a) after a response that announces close / answers a malformed request: silence
+    for (k, r) in sp.finals.iter().enumerate() {
+        // a dispatcher-made error response (no service identity) to a malformed request
+        let parse_error = r.header("x-rid").is_none() && matches!(r.status, 400 | 431);
+        if !(r.announces_close() || parse_error) {
+            continue;
+        }
+        let what = if parse_error { "an error response to a malformed request" } else { "a response announcing close" };
+        // requests answered before this response
+        let answered = sp.finals[..k].iter().filter(|x| x.header("x-rid").is_some()).count();
+        if parse_error && ids.len() > answered {
+            return Some(("dispatch-after-parse-error".into(), format!("response #{k} is {what}, yet request {} was dispatched afterwards", ids[answered])));
+        }
+        if ids.len() > k + 1 {
+            return Some((if parse_error { "dispatch-after-parse-error" } else { "dispatch-after-close" }.into(), format!("response #{k} is {what}, yet request {} was dispatched afterwards", ids[k + 1])));
+        }
+        if !r.complete {
+            break;
+        }
+        if r.end < run.sim.wire.len() {
+            if r.status == 304 && methods.get(k) != Some(&"HEAD") && !run.sim.wire[r.end..].starts_with(b"HTTP/1.") {
+                // the body of a 304 (C02's known finding body-after-304), not a new message
+                return Some(("body-after-304".into(), format!("response #{k} (304, {what}) is followed by {} body bytes", run.sim.wire.len() - r.end)));
+            }
+            return Some((if parse_error { "bytes-after-parse-error" } else { "bytes-after-close" }.into(), format!("response #{k} is {what}, yet {} more bytes were written", run.sim.wire.len() - r.end)));
+        }
+        if run.sim.done == "pending" && !case.cfg.dt {
+            // the connection must actually be closed by the server (with a disconnect timeout the
+            // server may legitimately linger waiting for the peer)
+            return Some(("close-not-closed".into(), format!("response #{k} is {what}, but the connection is left open and idle")));
+        }
+        break;
+    }
+    // (c) keep-alive only after the previous request body was received to its exact end: request
+    // k+1 must not be dispatched unless every body byte of request k was delivered by the client
+    for w in ids.windows(2) {
+        let r = &case.reqs[w[0]];
+        if r.has_body() && !body_fully_sent(run, w[0]) {
+            return Some(("reuse-before-body-end".into(), format!("request {} dispatched although the body of request {} never arrived completely", w[1], w[0])));
+        }
+    }
+    None
+}
+
+/// did the read script deliver the complete body of request i? (ground truth from the case text)
+fn body_fully_sent(run: &Run, i: usize) -> bool {
+    // the case text lists the body units; recompute the delivered byte count from it
+    let line = &run.line;
+    let Some(r) = crate::common::kv(line, "r") else { return false };
+    let req = &run.case.reqs[i];
+    let mut bytes = 0usize;
+    let mut chunks = 0usize;
+    let mut last = false;
+    for seg in r.split(',') {
+        for u in seg.split('+') {
+            let Some(p) = u.find(|c: char| !c.is_ascii_digit()) else { continue };
+            if u[..p].parse::<usize>().ok() != Some(i) {
+                continue;
+            }
+            let rest = &u[p..];
+            if let Some(k) = rest.strip_prefix('b') {
+                bytes += k.parse::<usize>().unwrap_or(0);
+            } else if rest.starts_with('c') {
+                chunks += 1;
+            } else if rest == "z" {
+                last = true;
+            }
+        }
+    }
+    match &req.body {
+        c02::ReqBody::None => true,
+        c02::ReqBody::Len(n) => bytes >= *n,
+        c02::ReqBody::Chunked(v) => chunks >= v.len() && last,
+    }
+}
+
+fn gen(ctx: &Ctx) -> Vec<String> {
+    let mut cases = Vec::new();
+    // exhaustive: request 0 with a body, request 1 plain; all payload actions x delays x schedules
+    let acts = ["i", "d", "a", "r2", "k"];
+    let framings: [(&str, &[&str]); 3] = [("l6", &["0b6"]), ("l6", &["0b2", "0b4"]), ("c3.3", &["0c0", "0c1", "0z"])];
+    for (fr, units) in framings {
+        for act in acts {
+            for pend in [0usize, 1, 2] {
+                for body in ["e", "b3", "s/2.P.2"] {
+                    for conn in ["-", "c"] {
+                        for dt in [0, 1] {
+                            // schedules: everything at once / body after k Pendings / body never / body then EOF
+                            let all = format!("0h+{}+1h", units.join("+"));
+                            let late = format!("0h,P,P,{},1h", units.join(","));
+                            let never = "0h,P,P".to_string();
+                            let part = format!("0h,{},P,E", units[0]);
+                            for r in [all, late, never, part] {
+                                cases.push(format!(
+                                    "ka=1 dt={dt} hc=1 wb=32768 q=P:1:{conn}:{fr}:-;G:1:-:n:- h=p{pend}:{act}:200:-:-:{body};p0:i:200:-:-:b2 r={r} w=-"
+                                ));
+                            }
+                        }
+                    }
+                }
+            }
+        }
+    }
+    // close announced by the handler / request / server setting, with pipelined followers
+    for ka in [0, 1] {
+        for c0 in ["-", "c", "k"] {
+            for hc in ["-", "c"] {
+                for v in ["0", "1"] {
+                    for pend in [0, 1] {
+                        for w in ["-", "P,P", "10,P,10,P"] {
+                            for r in ["0h+1h", "0h,P,1h", "0h,P,P,P,1h", "0h+1h,E"] {
+                                cases.push(format!(
+                                    "ka={ka} dt=0 hc=1 wb=32768 q=G:{v}:{c0}:n:-;G:1:-:n:- h=p{pend}:i:200:{hc}:-:b30;p0:i:200:-:-:b2 r={r} w={w}"
+                                ));
+                            }
+                        }
+                    }
+                }
+            }
+        }
+    }
+    // malformed head at each pipeline position
+    for pos in 0..3 {
+        for pend in [0, 1] {
+            let q: Vec<&str> = (0..3).map(|i| if i == pos { "X" } else { "G:1:-:n:-" }).collect();
+            cases.push(format!(
+                "ka=1 dt=0 hc=1 wb=32768 q={} h=p{pend}:i:200:-:-:b3;p{pend}:i:200:-:-:b3;p0:i:200:-:-:b3 r=0h+1h+2h w=-",
+                q.join(";")
+            ));
+            cases.push(format!(
+                "ka=1 dt=1 hc=0 wb=32768 q={} h=p{pend}:i:200:-:-:b3;p{pend}:i:200:-:-:b3;p0:i:200:-:-:b3 r=0h,P,1h,P,2h,E w=-",
+                q.join(";")
+            ));
+        }
+    }
+    let mut rng = Rng::new(ctx.seed ^ 0xC03);
+    for _ in 0..ctx.budget(2500) {
+        cases.push(gen_c03_random(&mut rng));
+    }
+    cases
+}
+
+fn gen_c03_random(rng: &mut Rng) -> String {
+    let n = *rng.pick(&[1usize, 2, 2, 2, 3, 3, 4]);
+    let mut qs = Vec::new();
+    let mut hs = Vec::new();
+    let mut units = Vec::new();
+    let bad_at = if rng.chance(1, 6) { Some(rng.below(n)) } else { None };
+    for i in 0..n {
+        if bad_at == Some(i) {
+            qs.push("X".to_owned());
+            hs.push("p0:i:200:-:-:e".to_owned());
+            units.push(format!("{i}h"));
+            continue;
+        }
+        let (mut q, us, has_body) = gen_req(rng, 10);
+        if rng.chance(1, 5) {
+            // force a close request
+            let mut f: Vec<String> = q.split(':').map(|s| s.to_owned()).collect();
+            f[2] = "c".into();
+            q = f.join(":");
+        }
+        qs.push(q);
+        let mut h = gen_handler(rng, has_body);
+        if rng.chance(1, 6) {
+            let mut f: Vec<String> = h.split(':').map(|s| s.to_owned()).collect();
+            f[3] = "c".into();
+            h = f.join(":");
+        }
+        hs.push(h);
+        units.push(format!("{i}h"));
+        let keep = if rng.chance(1, 4) { rng.below(us.len() + 1) } else { us.len() };
+        let cut = keep < us.len();
+        for u in us.into_iter().take(keep) {
+            units.push(format!("{i}{u}"));
+        }
+        if cut {
+            break;
+        }
+    }
+    let one = rng.chance(1, 4);
+    format!("{} q={} h={} r={} w={}", gen_cfg(rng), qs.join(";"), hs.join(";"), gen_reads(rng, units, one), gen_writes(rng))
+}
+
+fn run(line: &str) -> CaseResult {
+    let Some(run) = run_case(line) else {
+        return CaseResult { output: "bad-case".into(), fail: None, nontrivial: false, tags: vec!["bad-case".into()] };
+    };
+    let mut res = CaseResult::ok(run.output.clone());
+    let methods: Vec<&str> = run.sim.log.seen.iter().map(|c| c.1.as_str()).collect();
+    let sp = split_responses(&run.sim.wire, &methods);
+    let any_close = sp.finals.iter().any(|r| r.announces_close());
+    let any_body = run.sim.log.calls.iter().any(|c| c.0.is_some_and(|i| run.case.reqs.get(i).is_some_and(|r| r.has_body())));
+    res.nontrivial = !sp.finals.is_empty() && (any_close || any_body);
+    res.tags.push(format!("D={}", run.sim.done));
+    if any_close {
+        res.tags.push("close-announced".into());
+    }
+    if any_body {
+        res.tags.push("request-body".into());
+    }
+    if sp.finals.iter().any(|r| matches!(r.status, 400 | 431)) {
+        res.tags.push("parse-error-response".into());
+    }
+    if run.sim.log.calls.len() >= 2 {
+        res.tags.push("reused".into());
+    }
+    for r in &run.sim.log.reads {
+        res.tags.push(format!("payload-end={}", r.end));
+    }
+    if let Some((sig, detail)) = oracle_c03(&run) {
+        res = res.fail(&sig, detail);
+    }
+    res
+}
 
 pub fn prop() -> Prop {
-    Prop {
-        rule: "unimplemented",
-        parallel: false,
-        gen: Box::new(|_| Vec::new()),
-        run: Box::new(|_| CaseResult::ok("unimplemented".to_owned())),
-    }
+    Prop { rule: RULE, parallel: true, gen: Box::new(gen), run: Box::new(run) }
 }
